@@ -84,7 +84,7 @@ CHECKS = {
         category='model_checking',
         text='MIR symbolic execution of all six policy codecs (encode then decode over symbolic entries, read/write widths and kinds matched segment by segment), of '
              'CreateOptions::encode_kvs followed by from_kvs over a symbolic key-value store keyed by the option-name constants (every settable field must come back, kv-separation '
-             'present and absent), of Database::keyspace on an existing name (create_options never evaluated) and of apply_to_base_config (field -> same-named tree setter). '
+             'present and absent), of Database::keyspace on an existing name (create_options never evaluated), of apply_to_base_config (field -> same-named tree setter), and of the create path being atomic under the dictionary lock (shared with C12). '
              'Counterexamples are replayed natively: create with non-default options, reopen passing other options, compare the options in force.',
         design_ref='DESIGN.md §5 C16',
         note='Trusted: lsm-tree policy types are vectors; strategy get_name/get_config return constructor parameters (contract, exercised natively). Outside: policy vectors longer than 3, '
@@ -95,8 +95,9 @@ CHECKS = {
         category='model_checking',
         text='MIR symbolic execution of FormatVersion::parse_file_header over every byte string of length 0..6 (bytes symbolic, z3 decides Some(v) iff "FJL"+v, v in 1..=3), '
              'of check_version (accepts exactly V3), of Database::recover and create_new (ordering of version check, directory lock, journal recovery/creation, marker write+sync, '
-             'directory fsyncs; a refused open performs no mutating call), of the lock-guard sharing in keyspace handles, and of the Drop impls (wait for the thread counter, clear '
-             'cyclic holders, journal sync). Counterexamples are replayed natively: marker contents from the model, second open while handles live, directory fingerprint.',
+             'directory fsyncs; a refused open performs no mutating call), of the lock-guard sharing in keyspace handles, and of the Drop impls (wait for the thread counter without a blocking send into the bounded worker queue, '
+             'clear cyclic holders after the workers stopped, journal sync). Counterexamples are replayed natively: marker contents from the model (with and without a lock file), second open while handles live, '
+             'directory fingerprint, drop on another thread while a worker is parked inside a memtable rotation.',
         design_ref='DESIGN.md §5 C17',
         note='Not applicable (assumed, F2/F3): that the OS file lock really excludes another process/handle and that joined threads have stopped. Marker longer than 6 bytes behaves like its prefix.',
         technique='MIR symbolic execution over symbolic byte arrays + z3; event-order obligations; native replay',
@@ -104,7 +105,7 @@ CHECKS = {
     'C18': dict(
         category='model_checking',
         text='MIR symbolic execution (the assigner and factories are uninterpreted callables, handle identity through Arc clones): Database::keyspace and recover_keyspaces '
-             'install exactly assigner(this keyspace\'s name); the builder stores the assigner; from_kvs never yields a factory; apply_to_base_config forwards the factory to the tree. '
+             'install exactly assigner(this keyspace\'s name); the builder stores the assigner; from_kvs never yields a factory; apply_to_base_config forwards the factory to the tree; recovery (active and sealed journal loops over a symbolic recovered state) never re-applies a record whose seqno is covered by the keyspace\'s tables (a filter rewrites an item under its seqno), plus the ghost flushed-mark obligation behind the known finding. '
              'Counterexamples are replayed natively with a key-deterministic filter assigned to one of two keyspaces, before and after reopen.',
         design_ref='DESIGN.md §5 C18',
         note='Not applicable to this technique (clause): verdict semantics - kept items untouched, removed/replaced items stay so - are decided inside lsm-tree\'s compaction stream '
